@@ -53,6 +53,9 @@ class Conc(object):
         return [base, base + "/", "./" + base, base.replace("/", "//", 1), "x/../" + base][self.rot % 5]
 
 
+MEDIA = [(2, 3), (1, 1), (0, 0), (12, 12)]
+
+
 def ini_parse(text):
     cp = configparser.RawConfigParser()
     cp.optionxform = str
@@ -114,7 +117,7 @@ def build(obj, conc, foreign_owner=False):
         if sec["stage2"] == "both":
             t.stage2.instimage = IMG["inst"]
     if sec["media"]:
-        t.media.discnum, t.media.totaldiscs = 2, 3
+        t.media.discnum, t.media.totaldiscs = MEDIA[conc.rot % len(MEDIA)]
     if sec["cks"]:
         t.checksums.add(IMG["boot"], "sha256", "a" * 64)
         t.checksums.add("Repo/repomd.XML", "md5", "b" * 32)
@@ -148,6 +151,8 @@ def render(x, conc, obj):
             return ".".join(str(i) for i in productmd.common.VERSION)
         if s == "$ts":
             return {"int": "1432300000", "float": "1432300000.75", "neg": "-86400" if conc.rot % 2 else "-1"}[sec["ts"]]
+        if s in ("$discnum", "$totaldiscs"):
+            return str(MEDIA[conc.rot % len(MEDIA)][s == "$totaldiscs"])
         if s == "$tsint":
             return ("-86400" if conc.rot % 2 else "-1") if sec["ts"] == "neg" else "1432300000"
         if s == "$relname $relver":
